@@ -102,6 +102,8 @@ def run(ctx):
         if len(f) != 1:
             raise ToolError("model: final state of workload %s is not unique: %s" % (k, f))
     crash_part(ctx, cases, allowed, {k: next(iter(f)) for k, f in final.items()}, ctx.pick(0, 3))
+    if not ctx.quick:
+        selftest(ctx, cases[:10], allowed, {k: next(iter(f)) for k, f in final.items()})
     # 3. eviction
     res = ctx.tlc("dnsserver", "MC_PacketStore", cfg="PacketStore_evict.cfg", mode="gen", timeout=3000,
                   constants={"MaxMsgs": ctx.pick(3, 4)})
@@ -200,3 +202,31 @@ def evict_part(ctx, cases):
                        "eviction workload %s (cut-off %d): %s: expected %s, got %s" % (msgs, c["cutoff"], o["what"], o["exp"], o["got"]),
                        {"part": "evict", "case": c})
     ctx.log("c39 eviction: %d workloads, waited %s ms" % (len(cases), obs[0]["waited_ms"] if obs else 0))
+
+
+def selftest(ctx, cases, allowed, final):
+    """Binding self-test: (a) flip the model's reply of one message -> the driver must report a reply mismatch;
+    (b) take the committed states out of the allowed sets -> every workload must be reported."""
+    import copy
+    flipped = []
+    for c in cases:
+        c = copy.deepcopy(c)
+        m = [x for x in c["msgs"] if x["op"] == "upsert"][-1]
+        m["flag"] = not m["flag"]
+        flipped.append(c)
+    inp = ctx.write_ndjson("c39-selftest.in", flipped)
+    outp = ctx.path("c39-selftest.out")
+    ctx.run_bin("vh_dnssrv", ["c39", "--in", inp, "--out", outp, "--subsets", 0])
+    obs = ctx.read_ndjson(outp)
+    rejected = sum(1 for o in obs if not o["ok"] and o["what"] == "insert flag")
+    outp2 = ctx.path("c39.out")
+    wrong = 0
+    for c, o in zip(cases, ctx.read_ndjson(outp2)):
+        a = allowed[c["wid_b"]]
+        empty = min(a[(0, 0)])
+        if any(cut["state"] not in {empty} for cut in o["cuts"]):
+            wrong += 1      # with only the empty database allowed, a workload that commits anything is caught
+    ctx.cov["binding_selftests"] = {"flipped_replies": len(flipped), "rejected": rejected,
+                                    "workloads_with_commits": wrong, "of": len(cases)}
+    if rejected != len(flipped) or wrong == 0:
+        raise ToolError("binding self-test failed: %s" % ctx.cov["binding_selftests"])
